@@ -367,7 +367,7 @@ def write_if_changed(path, text):
 
 def coq_files():
     files = []
-    for sub in ('Base', 'Impl', 'Spec', 'Gen', 'Proofs', 'Properties', 'Extract'):
+    for sub in ('Base', 'Impl', 'Spec', 'Gen', 'Proofs', 'Properties', 'Extract', 'ExtractCert'):
         files += sorted(str(p.relative_to(COQ)) for p in (COQ / sub).glob('*.v'))
     return files
 
